@@ -104,7 +104,7 @@ def remove_redundant_chained_calls(source: str) -> str:
         arg = node.args[0].args[0]
         while core.match_template(arg, templates):
             arg = arg.args[0].args[0]
-        yield node, ast.Call(func=node.func, args=[arg], keywords=[])
+        yield node, ast.Call(func=node.func, args=[arg], keywords=node.keywords)
 
     # If inner is present, outer is redundant
     inner_outer_redundancy_mapping = {
@@ -117,7 +117,9 @@ def remove_redundant_chained_calls(source: str) -> str:
 
     templates = tuple(
         ast.Call(
-            func=ast.Name(id=tuple(values)), args=[ast.Call(func=ast.Name(id=key), args=[object])]
+            func=ast.Name(id=tuple(values)),
+            args=[ast.Call(func=ast.Name(id=key), args=[object])],
+            keywords=[],
         )
         for key, values in inner_outer_redundancy_mapping.items()
     )
